@@ -10,7 +10,7 @@ use std::sync::{Arc, Mutex};
 pub fn prop() -> Prop {
   Prop {
     id: "C12",
-    rule: "case = (BehaviorSubject over Subject or SubjectThreads, initial value 100; history of <= 10 operations, each through one of <= 3 clones made at generated moments: next(v) with numbered values, next_by(+1000), clone, subscribe a probe, unsubscribe one probe, peek, complete, error, subscribe a probe that calls peek() from inside its callback, subscribe a probe that subscribes a further probe from inside its callback while its second item is delivered, unsubscribe() on the BehaviorSubject itself, sample is_closed()). \
+    rule: "case = (BehaviorSubject over Subject or SubjectThreads, initial value 100; history of <= 10 operations (one in eight: preceded by a crowd of 33..130 subscribers of which none / some / all but one leave again), each through one of <= 3 clones made at generated moments: next(v) with numbered values, next_by(+1000), clone, subscribe a probe, unsubscribe one probe, peek, complete, error, subscribe a probe that calls peek() from inside its callback, subscribe a probe that subscribes a further probe from inside its callback while its second item is delivered, unsubscribe() on the BehaviorSubject itself, sample is_closed()). \
            Oracle (model = current value + live subscribers): after unsubscribe() through any clone nothing is delivered to anybody and is_closed() is true on every clone, on a live subject it is false; peek() from inside a callback returns the item being delivered; a probe subscribed from inside a callback starts with the item being delivered and then gets every later item once; peek() == most recent value passed to any clone (initial value if none), also after a terminal; a new subscriber's first notification is that value (also when it joins after a terminal), then every later item exactly once in order, then the terminal once; next_by(f) emits f(current value); nothing is delivered to unsubscribed probes or after a terminal. Non-trivial: a value written through one clone is read (peek / subscribe / next_by) through another clone. Distinct by hash(case). Part `threads` (engine T): BehaviorSubject over SubjectThreads with one probe subscribed up front; two producer threads each send 1..2 numbered values through their own clone, a third thread subscribes a late probe; schedule = <= 3 preemptions at lock-acquisition granularity. Oracle: when all threads have finished, peek() equals the last value the up-front probe received (the common delivered order); the late probe's first value is the initial value or one of the produced values and it receives no value twice; no deadlock / panic. Part `short` enumerates all histories of length <= 5 (thorough tier).",
     assumptions: &["threads part: sequentially consistent interleavings at lock-acquisition granularity"],
     parts: vec![
@@ -366,7 +366,28 @@ fn run_random(c: &mut dyn Choices, ctx: &Ctx) -> Outcome {
   let threads = c.flag();
   let k = 1 + c.pick(3);
   let n = c.pick(11);
-  let ops = (0..n).map(|_| gen_op(c, false)).collect();
+  let mut ops: Vec<Op> = (0..n).map(|_| gen_op(c, false)).collect();
+  // (appended picks, recorded tapes keep their meaning) one history in eight starts with a crowd: 33..45 (or 64 / 65 /
+  // 130) probes subscribe, then nobody / the first / one in the middle and the first / all but one leave again
+  if c.pick(8) == 7 {
+    let m = crate::ast::pick_size(c, 33, 13, &[64, 65, 130]);
+    let mut pre: Vec<Op> = (0..m).map(|_| Op::Subscribe(0)).collect();
+    match c.pick(4) {
+      0 => {}
+      1 => pre.push(Op::UnsubOne(0)),
+      2 => {
+        pre.push(Op::UnsubOne(m / 2));
+        pre.push(Op::UnsubOne(0));
+      }
+      _ => pre.extend((0..m - 1).map(|_| Op::UnsubOne(0))),
+    }
+    if c.flag() {
+      pre.push(Op::Next(0));
+      pre.push(Op::Next(0));
+    }
+    pre.extend(ops);
+    ops = pre;
+  }
   finish(threads, k, ops, ctx)
 }
 fn run_short(c: &mut dyn Choices, ctx: &Ctx) -> Outcome {
